@@ -645,6 +645,10 @@ func (r *c13Run) takeRequest(name string, h int64) bool {
 
 // answer the pending request (name, h) with a block of the given kind
 func (r *c13Run) doResponse(name string, h int64, kind string) bool {
+	return r.doResponseOpt(name, h, kind, false)
+}
+
+func (r *c13Run) doResponseOpt(name string, h int64, kind string, late bool) bool {
 	r.tr.Lock()
 	defer r.tr.Unlock()
 	p := r.alive[name]
@@ -655,7 +659,7 @@ func (r *c13Run) doResponse(name string, h int64, kind string) bool {
 	for _, x := range r.outbox[name] {
 		found = found || x == h
 	}
-	if !found {
+	if !found && !late {
 		return false
 	}
 	if kind == "none" {
@@ -679,11 +683,11 @@ func (r *c13Run) doResponse(name string, h int64, kind string) bool {
 	}
 	r.takeRequest(name, h)
 	// the requester this block is going to meet (AddBlock looks it up by the BLOCK's height)
-	pre := map[string]interface{}{"peer": "none", "blk": "none"}
+	pre := map[string]interface{}{"peer": "none", "blk": "none", "redo": false}
 	pool := r.bcR.pool
 	pool.mtx.Lock()
 	if q := pool.requesters[blk.Height]; q != nil {
-		pre["peer"], pre["blk"] = "nil", "nil"
+		pre["peer"], pre["blk"], pre["redo"] = "nil", "nil", len(q.redoCh) > 0
 		if id := q.getPeerID(); id != "" {
 			pre["peer"] = r.nameOf(id)
 		}
@@ -826,6 +830,8 @@ func (r *c13Run) exec(s c13Step) bool {
 		return r.doTimeout(s.P)
 	case "Retry":
 		return r.doRetry(s.H)
+	case "Late": // an answer nobody is waiting for any more (the peer was removed and has reconnected)
+		return r.doResponseOpt(s.P, s.H, s.Kind, true)
 	case "WaitAsked":
 		// wait (condition, bounded) until peer s.P has been sent the request for height s.H
 		for i := 0; i < 20000 && !r.isHanded(); i++ {
